@@ -136,6 +136,10 @@ def _install(model, subscribe, published):
         def notify(self, event):
             g = getters.get(event.event_type)
             published["n"] += 1
+            if event.event_type == StatEvents.OBSERVATION_ADDED_EVENT:
+                # a monitor that reads every statistic after every observation (also before the warm-up): reading
+                # never changes what is reported later
+                stoch.stat_digest(self.stat)
             ts = getattr(event, "timestamp", None)
             if ts is not None and self.key != "p":
                 if enc_obs(ts) != enc_obs(self.stat.simulator.simulator_time):
